@@ -3,13 +3,15 @@
 package manager
 
 import (
+	"context"
+
 	discoveryv3 "github.com/envoyproxy/go-control-plane/envoy/service/discovery/v3"
 
 	"github.com/kitex-contrib/xds/core/xdsresource"
 )
 
 // verifYield is a no-op unless the package is built with the `verif` tag.
-func verifYield(int, xdsresource.ResourceType, string) {}
+func verifYield(context.Context, int, xdsresource.ResourceType, string) {}
 
 // verifSender is a no-op unless the package is built with the `verif` tag.
 func verifSender(*xdsClient, int) {}
